@@ -22,6 +22,8 @@ mod smallmap;
 mod task;
 mod terminal;
 mod trace;
+#[cfg(feature = "verif")]
+pub mod verif;
 mod work;
 
 #[cfg(feature = "jemalloc")]
